@@ -15,7 +15,7 @@ Definition nl (s s' : S) : Prop := need_load (nd s) = false -> need_load (nd s')
 Lemma nl_refl : forall s, nl s s. Proof. intros s H; exact H. Qed.
 Lemma nl_trans : forall a b c, nl a b -> nl b c -> nl a c. Proof. unfold nl; auto. Qed.
 Lemma fr_nl : forall m s s', fr m s s' -> nl s s'.
-Proof. intros m s s' (ex & _ & _ & _ & _ & _ & _ & Nl); exact Nl. Qed.
+Proof. intros m s s' (ex & _ & _ & _ & _ & _ & _ & Nl & _); exact Nl. Qed.
 Lemma nl_upd : forall f s, (forall n, need_load (f n) = need_load n) -> nl s (upd f s).
 Proof. intros f s H Hn. cbn. rewrite H; exact Hn. Qed.
 Lemma nl_emit : forall o s, nl s (emit o s). Proof. intros o s H; exact H. Qed.
